@@ -19,6 +19,10 @@ from ..oracle import geometry as G
 from ..oracle import c05_wrapnorm as W
 from .. import monitor, cover
 
+# monitors are self-sufficient (judge a call from its arguments and result): the repository's own tests run under them
+# as an extra workload in the thorough tier (vf/repotests.py)
+REPOTESTS = True
+
 RULE = ('systems are generated round-robin over 9 cell kinds (7 crystal families in LAMMPS form, strongly tilted, '
         'randomly rotated) x {right-handed, left-handed by reversed c / exchanged a,b / mirror image} x 3 origin classes '
         'x 3 length scales x 8 periodicity settings (wrap; normalise: fully periodic only) x 4 atom-count classes '
